@@ -225,6 +225,10 @@ fn fixed_distinct(ctx: &Ctx) -> CaseInfo {
     eval(&c, ctx)
 }
 
+pub fn run_family_pub(bytes: &[u8], ctx: &Ctx) -> CaseInfo {
+    run_family(bytes, ctx)
+}
+
 pub fn def() -> PropertyDef {
     PropertyDef {
         id: "C10",
